@@ -153,6 +153,7 @@ pub fn templates() -> Vec<String> {
         "try @ ( a ) { } catch { }",
         "try new C ( @ ) { } catch { }",
         "try this . g ( ) returns ( $ v ) { } catch { }",
+        "try this . g ( ) returns ( uint256 u , , $ v ) { } catch { }",
         "try this . g ( ) returns ( uint256 v ) { # } catch { }",
         "try this . g ( ) { } catch { # }",
         "try this . g ( ) { } catch ( $ memory e ) { }",
@@ -183,6 +184,11 @@ pub fn templates() -> Vec<String> {
         "mapping ( uint256 => mapping ( $ => bool ) ) v ;",
         "function g ( $ p ) public { }",
         "function g ( uint256 p , $ q ) public { }",
+        "function g ( uint256 p , , $ q ) public { }",
+        "function g ( , $ q ) public { }",
+        "function g ( ) public returns ( uint256 , , $ ) { }",
+        "constructor ( uint256 p , , $ q ) { }",
+        "modifier m ( , $ q ) { _ ; }",
         "function g ( $ ) external ;",
         "function g ( ) public returns ( $ r ) { }",
         "function g ( ) public returns ( uint256 , $ ) { }",
@@ -236,6 +242,7 @@ pub fn templates() -> Vec<String> {
         "library L { function g ( ) internal { # } }",
         "interface I { function g ( $ p ) external returns ( $ r ) ; }",
         "function g ( $ p ) pure { }",
+        "function g ( uint256 p , , $ q ) pure { }",
         "function g ( ) pure returns ( $ r ) { }",
         "function g ( ) m ( @ ) { }",
         "function g ( ) { # }",
